@@ -1050,4 +1050,213 @@ theorem identLike_url_any (n m : Nat) (p f : List Char)
     simp at h
 
 
+/-! ## the first token of `p ++ follower` -/
+
+theorem identLike_types (n : Nat) (s : List Char) :
+    (identLike n s).1 = .ident ∨ (identLike n s).1 = .function ∨ (identLike n s).1 = .url ∨ (identLike n s).1 = .badUrl := by
+  simp only [identLike, urlRest]
+  split
+  · split
+    · split
+      · simp
+      · split
+        · simp
+        · split <;> simp
+    · simp
+  · simp
+
+theorem take2_loc (q : List Char) (c : Char) (r : List Char) (hc : UF c) :
+    ((q ++ c :: r).take 2 == ['-', '>']) = ((q ++ [' ']).take 2 == ['-', '>']) := by
+  have h1 : c ≠ '-' := by simpa using hc.minus
+  have h2 : c ≠ '>' := by simpa using hc.gt
+  match q with
+  | [] => cases r <;> simp [h1]
+  | [y] => simp [h2]
+  | y :: z :: q' => simp
+
+theorem take3_loc (q : List Char) (c : Char) (r : List Char) (hc : UF c) (hb : c = '!' → r.head? ≠ some '-') :
+    ((q ++ c :: r).take 3 == ['!', '-', '-']) = ((q ++ [' ']).take 3 == ['!', '-', '-']) := by
+  have h1 : c ≠ '-' := by simpa using hc.minus
+  match q with
+  | [] =>
+    by_cases hcb : c = '!'
+    · have := hb hcb
+      subst hcb
+      match r with
+      | [] => simp
+      | [a] => simp
+      | a :: b :: r' => simp at this; simp [this]
+    · match r with
+      | [] => simp
+      | [a] => simp
+      | a :: b :: r' => simp [hcb]
+  | [y] => cases r <;> simp [h1]
+  | [y, z] => simp [h1]
+  | y :: z :: w :: q' => simp
+
+theorem headD_name_loc (q : List Char) (c : Char) (r : List Char) (hc : UF c) :
+    isName ((q ++ c :: r).headD ' ') = isName ((q ++ [' ']).headD ' ') := by
+  cases q with
+  | nil => simp only [List.nil_append, List.headD_cons, hc.name]; decide
+  | cons y ys => rfl
+
+theorem head_star_loc (q : List Char) (c : Char) (r : List Char) (hc : UF c) :
+    ((q ++ c :: r).head? == some '*') = ((q ++ [' ']).head? == some '*') := by
+  have h1 : c ≠ '*' := by simpa using hc.star
+  cases q with
+  | nil => simp [h1]
+  | cons y ys => rfl
+
+/-- the token types that end where the next token starts (not self-delimited by a closing quote or parenthesis) -/
+def PlainTT (tt : TT) : Prop :=
+  tt ≠ .whitespace ∧ tt ≠ .comment ∧ tt ≠ .string ∧ tt ≠ .badString ∧ tt ≠ .url ∧ tt ≠ .badUrl ∧ tt ≠ .function
+
+theorem identLike_plain (n : Nat) (s : List Char) (tt : TT) (k : Nat) (ht : PlainTT tt)
+    (h : identLike n s = (tt, k)) : tt = .ident := by
+  have := identLike_types n s
+  rw [h] at this
+  obtain ⟨_, _, _, _, h5, h6, h7⟩ := ht
+  rcases this with h1 | h1 | h1 | h1
+  · exact h1
+  · exact absurd h1 h7
+  · exact absurd h1 h5
+  · exact absurd h1 h6
+
+/-- **locality**: if `p` followed by one space reads as the token `(tt, p)`, so does `p` followed by any stop code
+    point `c` and anything behind it -/
+theorem next_loc (n m : Nat) (p : List Char) (c : Char) (r : List Char) (tt : TT) (hc : UF c)
+    (hb : c = '!' → r.head? ≠ some '-') (ht : PlainTT tt)
+    (hn : p.length + 1 ≤ n) (hm : p.length + 1 + r.length ≤ m)
+    (h : next n (p ++ [' ']) = (tt, p.length)) : next m (p ++ c :: r) = (tt, p.length) := by
+  match p with
+  | [] =>
+    exfalso
+    have : next n [' '] = (.whitespace, 1) := by simp [next, isWs, wsRun]
+    rw [List.nil_append, this] at h
+    exact ht.1 (congrArg Prod.fst h).symm
+  | x :: p' =>
+    have hnum : ∀ t, numeric n (x :: (p' ++ [' '])) = (t, (x :: p').length) →
+        numeric m (x :: (p' ++ c :: r)) = (t, (x :: p').length) :=
+      fun t hh => numeric_loc n m (x :: p') c r t hc hn hm hh
+    have hid : identLike n (x :: (p' ++ [' '])) = (tt, (x :: p').length) →
+        identLike m (x :: (p' ++ c :: r)) = (tt, (x :: p').length) := by
+      intro hh
+      have := identLike_plain _ _ _ _ ht hh
+      subst this
+      exact identLike_ident_loc n m (x :: p') c r hc hn hm hh
+    simp only [List.cons_append, next] at h ⊢
+    by_cases c1 : isWs x = true
+    · simp only [c1, if_true] at h
+      exact absurd (congrArg Prod.fst h).symm ht.1
+    simp only [c1, Bool.false_eq_true, if_false] at h ⊢
+    by_cases c2 : isQuote x = true
+    · simp only [c2, if_true] at h
+      have := congrArg Prod.fst h
+      simp only at this
+      split at this
+      · exact absurd this.symm ht.2.2.1
+      · exact absurd this.symm ht.2.2.2.1
+    simp only [c2, Bool.false_eq_true, if_false] at h ⊢
+    by_cases c3 : (x == '#') = true
+    · simp only [c3, if_true] at h ⊢
+      rw [headD_name_loc p' c r hc, validEsc_loc p' c r hc]
+      by_cases c3a : (isName ((p' ++ [' ']).headD ' ') || validEsc (p' ++ [' '])) = true
+      · simp only [c3a, if_true] at h ⊢
+        have hl := congrArg Prod.snd h
+        simp only [List.length_cons] at hl hn hm
+        rw [nameLen_loc n m p' c r hc (by omega) (by omega) (by omega)]
+        exact h
+      · simp only [c3a, Bool.false_eq_true, if_false] at h ⊢; exact h
+    simp only [c3, Bool.false_eq_true, if_false] at h ⊢
+    by_cases c4 : (x == '(') = true
+    · simp only [c4, if_true] at h ⊢; exact h
+    simp only [c4, Bool.false_eq_true, if_false] at h ⊢
+    by_cases c5 : (x == ')') = true
+    · simp only [c5, if_true] at h ⊢; exact h
+    simp only [c5, Bool.false_eq_true, if_false] at h ⊢
+    have hsn := startsNumber_loc (x :: p') c r hc
+    have hsi := startsIdent_loc (x :: p') c r hc
+    simp only [List.cons_append] at hsn hsi
+    by_cases c6 : (x == '+') = true
+    · simp only [c6, if_true, hsn] at h ⊢
+      by_cases c6a : startsNumber (x :: (p' ++ [' '])) = true
+      · simp only [c6a, if_true] at h ⊢; exact hnum _ h
+      · simp only [c6a, Bool.false_eq_true, if_false] at h ⊢; exact h
+    simp only [c6, Bool.false_eq_true, if_false] at h ⊢
+    by_cases c7 : (x == ',') = true
+    · simp only [c7, if_true] at h ⊢; exact h
+    simp only [c7, Bool.false_eq_true, if_false] at h ⊢
+    by_cases c8 : (x == '-') = true
+    · simp only [c8, if_true, hsn, hsi, take2_loc p' c r hc] at h ⊢
+      by_cases c8a : startsNumber (x :: (p' ++ [' '])) = true
+      · simp only [c8a, if_true] at h ⊢; exact hnum _ h
+      · simp only [c8a, Bool.false_eq_true, if_false] at h ⊢
+        by_cases c8b : ((p' ++ [' ']).take 2 == ['-', '>']) = true
+        · simp only [c8b, if_true] at h ⊢; exact h
+        · simp only [c8b, Bool.false_eq_true, if_false] at h ⊢
+          by_cases c8c : startsIdent (x :: (p' ++ [' '])) = true
+          · simp only [c8c, if_true] at h ⊢; exact hid h
+          · simp only [c8c, Bool.false_eq_true, if_false] at h ⊢; exact h
+    simp only [c8, Bool.false_eq_true, if_false] at h ⊢
+    by_cases c9 : (x == '.') = true
+    · simp only [c9, if_true, hsn] at h ⊢
+      by_cases c9a : startsNumber (x :: (p' ++ [' '])) = true
+      · simp only [c9a, if_true] at h ⊢; exact hnum _ h
+      · simp only [c9a, Bool.false_eq_true, if_false] at h ⊢; exact h
+    simp only [c9, Bool.false_eq_true, if_false] at h ⊢
+    by_cases c10 : (x == '/') = true
+    · simp only [c10, if_true, head_star_loc p' c r hc] at h ⊢
+      by_cases c10a : ((p' ++ [' ']).head? == some '*') = true
+      · simp only [c10a, if_true] at h
+        exact absurd (congrArg Prod.fst h).symm ht.2.1
+      · simp only [c10a, Bool.false_eq_true, if_false] at h ⊢; exact h
+    simp only [c10, Bool.false_eq_true, if_false] at h ⊢
+    by_cases c11 : (x == ':') = true
+    · simp only [c11, if_true] at h ⊢; exact h
+    simp only [c11, Bool.false_eq_true, if_false] at h ⊢
+    by_cases c12 : (x == ';') = true
+    · simp only [c12, if_true] at h ⊢; exact h
+    simp only [c12, Bool.false_eq_true, if_false] at h ⊢
+    by_cases c13 : (x == '<') = true
+    · simp only [c13, if_true, take3_loc p' c r hc hb] at h ⊢; exact h
+    simp only [c13, Bool.false_eq_true, if_false] at h ⊢
+    by_cases c14 : (x == '@') = true
+    · simp only [c14, if_true, startsIdent_loc p' c r hc] at h ⊢
+      by_cases c14a : startsIdent (p' ++ [' ']) = true
+      · simp only [c14a, if_true] at h ⊢
+        have hl := congrArg Prod.snd h
+        simp only [List.length_cons] at hl hn hm
+        rw [nameLen_loc n m p' c r hc (by omega) (by omega) (by omega)]
+        exact h
+      · simp only [c14a, Bool.false_eq_true, if_false] at h ⊢; exact h
+    simp only [c14, Bool.false_eq_true, if_false] at h ⊢
+    by_cases c15 : (x == '[') = true
+    · simp only [c15, if_true] at h ⊢; exact h
+    simp only [c15, Bool.false_eq_true, if_false] at h ⊢
+    by_cases c16 : (x == '\\') = true
+    · have hv := validEsc_loc (x :: p') c r hc
+      simp only [List.cons_append] at hv
+      simp only [c16, if_true, hv] at h ⊢
+      by_cases c16a : validEsc (x :: (p' ++ [' '])) = true
+      · simp only [c16a, if_true] at h ⊢; exact hid h
+      · simp only [c16a, Bool.false_eq_true, if_false] at h ⊢; exact h
+    simp only [c16, Bool.false_eq_true, if_false] at h ⊢
+    by_cases c17 : (x == ']') = true
+    · simp only [c17, if_true] at h ⊢; exact h
+    simp only [c17, Bool.false_eq_true, if_false] at h ⊢
+    by_cases c18 : (x == '{') = true
+    · simp only [c18, if_true] at h ⊢; exact h
+    simp only [c18, Bool.false_eq_true, if_false] at h ⊢
+    by_cases c19 : (x == '}') = true
+    · simp only [c19, if_true] at h ⊢; exact h
+    simp only [c19, Bool.false_eq_true, if_false] at h ⊢
+    by_cases c20 : isDigit x = true
+    · simp only [c20, if_true] at h ⊢; exact hnum _ h
+    simp only [c20, Bool.false_eq_true, if_false] at h ⊢
+    by_cases c21 : isNameStart x = true
+    · simp only [c21, if_true] at h ⊢; exact hid h
+    simp only [c21, Bool.false_eq_true, if_false] at h ⊢
+    exact h
+
+
 end Verif.Proofs.C09CssTok
